@@ -62,6 +62,12 @@ func HarnessC10Shared() {
 		"v":    {Type: schemas.TypeList{"integer"}},
 		"next": {Ref: "#/$defs/Node"},
 	}}
+	// the recursive definition may also collect typed additional properties (it is still a
+	// struct, and its self-reference still has to be a pointer)
+	withAP := zzvrt.Bool()
+	if withAP {
+		def.AdditionalProperties = &schemas.Type{Type: schemas.TypeList{"string"}}
+	}
 	legacy := zzvrt.Bool()
 	ref := "#/$defs/Node"
 	if legacy {
@@ -87,7 +93,7 @@ func HarnessC10Shared() {
 	src := string(g.Sources()["root.go"])
 	zzvrt.Emit("root.go", src)
 	h := zzvrt.Stage2(src)
-	zzvrt.Cover("refs:" + ref)
+	zzvrt.Cover("refs:" + ref + map[bool]string{true: "+additionalProperties", false: ""}[withAP])
 	if !zzvrt.S2OK(h) {
 		zzvrt.Note(zzvrt.S2Errors(h))
 		zzvrt.Check("C10.recursive-definition-compiles", false)
@@ -100,6 +106,15 @@ func HarnessC10Shared() {
 	for _, p := range []string{"first", "first/next", "first/next/next"} {
 		zzvrt.Assume(zzvrt.DIs(d, p, zzvrt.KObject))
 		zzvrt.Assume(zzvrt.And(zzvrt.DIs(d, p+"/v", zzvrt.KNumber), zzvrt.DIsInt(d, p+"/v")))
+		if withAP {
+			// undeclared members are strings (or absent); none is named like the collecting field
+			for i := 0; i < zzvrt.Param("E", 1); i++ {
+				ep := p + "/+" + string(rune('0'+i))
+				zzvrt.Assume(zzvrt.Or(zzvrt.DIs(d, ep, zzvrt.KAbsent), zzvrt.DIs(d, ep, zzvrt.KString)))
+			}
+			zzvrt.Assume(zzvrt.DIs(d, p+"/AdditionalProperties", zzvrt.KAbsent))
+			zzvrt.Assume(zzvrt.DIs(d, p+"/additionalproperties", zzvrt.KAbsent))
+		}
 	}
 	zzvrt.Assume(zzvrt.DIs(d, "first/next/next/next", zzvrt.KAbsent))
 	zzvrt.Assume(zzvrt.DIs(d, "second", zzvrt.KAbsent))
